@@ -174,7 +174,10 @@ func (x *Ctx) checkRebased(fn *ssa.Function, raw, low, whole ssa.Value, ownIdx i
 				}
 				switch u.Op {
 				case token.ADD:
-					if other == low {
+					if v == low && state[other] == 1 {
+						// the slice's start (itself a re-based position when the call sits in a loop) plus the relative offset
+						set(u, 2)
+					} else if other == low {
 						if s == 1 {
 							set(u, 2)
 						} else {
